@@ -17,7 +17,7 @@ def renderVal : AttrVal → String
   | .username s | .realm s | .nonce s | .software s | .alternateDomain s => s!"s={hexOrDash s}"
   | .messageIntegrity h | .messageIntegritySha256 h | .userhash h => s!"h={hexOrDash h}"
   | .errorCode c r => s!"code={c},s={hexOrDash r}"
-  | .unknownAttributes ts => s!"set={dots ((sortDedup ts).map hex4)}"
+  | .unknownAttributes ts => s!"set={dots ((sortDedup ts).map hex4)},enc={hexOrDash (ts.flatMap enc16)}"
   | .passwordAlgorithm a => s!"a={a}"
   | .passwordAlgorithms as => s!"l={dots (as.map toString)}"
   | .xorMappedAddress a | .alternateServer a => renderAddr a
